@@ -35,7 +35,9 @@ ASSUMPTIONS = [
     "suffix basis_tree_corrupted = at the start of some iteration parent/pred/depth/thread/pi are not one rooted "
     "spanning tree with zero reduced cost on tree arcs (the invariant the property record names for this state) AND the "
     "basis at loop exit is not a consistent spanning-tree basis (if it is, the answer depends on the pricing test only "
-    "and a failure stays a VIOLATION)",
+    "and a failure stays a VIOLATION) AND the result equals what the recorded baseline copy of network_simplex "
+    "(corpus/C09/baseline, the code the finding was recorded against) returns on the same input; calls that do not "
+    "return are classified by the observed corruption alone",
     "solve_assignment: no R_trace (CPython str-set order decides ties); the network is rebuilt in Lean in a fixed numbering",
     "the implementation's pooled dict is split over parallel arcs cheapest-first by the harness before the verified "
     "checker runs (any other split costs at least as much, so verdicts on capacity/balance/optimality are unaffected)",
@@ -55,7 +57,7 @@ RULE = ("networks of 2..6 nodes (8 thorough), <= 12 arcs (16), costs -3..6 built
         "and sinks, equal-length alternative routes, balanced supplies) and matrices, compared exactly as integers; non-trivial = the model made >= 2 augmentations or used a "
         "backward residual arc; distinct by canonical (function, instance)")
 TIMEOUT = 1.5        # min_cost_flow / solve_assignment: >= 1000x the run time of any explored instance
-TIMEOUT_NS = 12.0    # network_simplex stops at max_iter = 1e6 (about 4-10 s on these sizes)
+TIMEOUT_NS = 8.0     # network_simplex stops at max_iter = 1e6 (about 4-10 s on these sizes)
 
 
 # ---------------------------------------------------------------------------
@@ -480,7 +482,7 @@ def ns_tree_corrupted(n, arcs, supplies):
     path; the depth update loop runs past the re-hung subtree.)  It is abandoned at the first broken invariant.
     If so, a second run looks at the state at loop exit: with a consistent final basis (`_final_basis_ok`) the
     answer depends on the pricing test only, and a failure is then NOT attributed to the tree update.
-    Returns True iff corruption was observed and the final basis is not known to be consistent."""
+    Returns (corruption observed at some iteration, corruption observed and final basis not known to be consistent)."""
     import linecache
     import sys
     from solvor.network_simplex import network_simplex
@@ -503,7 +505,7 @@ def ns_tree_corrupted(n, arcs, supplies):
     def local2(frame, event, arg):
         if event == "line":
             state["lines"] += 1
-            if state["lines"] > 400_000:      # cycling or a thread walk that never ends
+            if state["lines"] > 150_000:      # cycling or a thread walk that never ends
                 raise _Corrupted()
             if state["final"] is None and text(frame) == "for arc in range(m, total_arcs):":
                 try:
@@ -513,9 +515,18 @@ def ns_tree_corrupted(n, arcs, supplies):
                 raise _Corrupted()
         return local2
 
+    def other(frame, event, arg):       # helper frames (_find_join can loop forever on a corrupted tree)
+        if event == "line":
+            state["lines"] += 1
+            if state["lines"] > 150_000:
+                raise _Corrupted()
+        return other
+
     def run(local):
         def tracer(frame, event, arg):
-            return local if event == "call" and frame.f_code is code else None
+            if event != "call":
+                return None
+            return local if frame.f_code is code else other
         sys.settrace(tracer)
         try:
             network_simplex(n, arcs, supplies, max_iter=20000)
@@ -528,9 +539,42 @@ def ns_tree_corrupted(n, arcs, supplies):
             sys.settrace(None)
 
     if not run(local1):
-        return False
+        return False, False
     run(local2)
-    return state["final"] is not True
+    return True, state["final"] is not True
+
+
+_BASELINE = None
+
+
+def ns_baseline_result(case, limit=5):
+    """what the recorded baseline copy of network_simplex (corpus/C09/baseline) returns on this input, in the form
+    of `_res`; 'timeout' if it is not back within `limit` seconds (classification aid only)"""
+    global _BASELINE
+    import importlib.util
+    import signal
+    if _BASELINE is None:
+        path = _pl.Path(__file__).resolve().parent.parent.parent / "corpus" / "C09" / "baseline" / "network_simplex_baseline.py"
+        spec = importlib.util.spec_from_file_location("c09_ns_baseline", path)
+        _BASELINE = importlib.util.module_from_spec(spec)
+        spec.loader.exec_module(_BASELINE)
+
+    class _Late(Exception):
+        pass
+
+    def on_alarm(signum, frame):
+        raise _Late()
+    old = signal.signal(signal.SIGALRM, on_alarm)
+    signal.alarm(limit)
+    try:
+        return _res(_BASELINE.network_simplex(case["n"], [tuple(a) for a in case["arcs"]], list(case["supplies"])))
+    except _Late:
+        return "timeout"
+    except Exception as e:  # noqa: BLE001
+        return f"raises:{type(e).__name__}"
+    finally:
+        signal.alarm(0)
+        signal.signal(signal.SIGALRM, old)
 
 
 def impl_ns_flag(case):
@@ -551,8 +595,12 @@ def impl(case):
         return {"order": order, **_res(min_cost_flow(g, fc.dec(case["source"]), fc.dec(case["sink"]), case["demand"]))}
     if fn == "network_simplex":
         from solvor.network_simplex import network_simplex
-        flag = impl_ns_flag(case)
-        return {"tree_corrupted": flag, **_res(network_simplex(case["n"], [tuple(a) for a in case["arcs"]], list(case["supplies"])))}
+        flag = impl_ns_flag(case)[1]      # the call returns: the basis at loop exit counts
+        res = _res(network_simplex(case["n"], [tuple(a) for a in case["arcs"]], list(case["supplies"])))
+        same = None
+        if flag:    # ... and so does: is this exactly what the recorded code (the finding's baseline) returns?
+            same = ns_baseline_result(case) == res
+        return {"tree_corrupted": bool(flag and same), "tree_corruption_observed": bool(flag), "baseline_same": same, **res}
     if fn == "solve_assignment":
         from solvor.flow import solve_assignment
         return _res(solve_assignment([list(r) for r in case["matrix"]]))
@@ -762,7 +810,7 @@ def run_impl(cases):
     lost = [i for i in ids if outs[i][0] != "ok"]
     flags = run_pool(impl_ns_flag, [cases[i] for i in lost], timeout=20.0)
     for i, f in zip(lost, flags):
-        outs[i] = outs[i] + ({"tree_corrupted": f[0] == "ok" and bool(f[1])},)
+        outs[i] = outs[i] + ({"tree_corrupted": f[0] == "ok" and bool(f[1][0])},)   # no return: any corruption counts
     return outs
 
 
@@ -1071,7 +1119,7 @@ def judge(ctx, case, out, tout, meta, reply):
                 if not same and ok and tok:
                     raise Infra(f"C09: both solvers matched the certified answer yet disagree: {case}")
     elif fn == "network_simplex":
-        if out[0] == "ok" and out[1].get("tree_corrupted"):
+        if out[0] == "ok" and out[1].get("tree_corruption_observed"):
             ctx.count("network_simplex:basis_tree_corruption_observed")
         ok = verdict(ctx, fn, ns_suffix(meta[1], out), case, out, reply, ichks[0], problems[0], rep)
         if ok:
